@@ -84,4 +84,41 @@ theorem forgery_accepted_before_fix :
 
 theorem forgery_refused_now : unpack [1] forged = none := by decide
 
+/-! ## which header names the sender key (`JWEDecrypt.Decrypt`, `fetchSKIDFromAPU`; authcrypt `extractSenderKey`)
+
+Two headers can name the sender of an ECDH-1PU envelope: `skid`, and — for envelopes with several recipients — `apu`
+(PartyUInfo, the sender key reference fed into the key derivation). The decrypter AUTHENTICATES with the key one of them
+names; the packer ATTRIBUTES the envelope (`FromKey`) to the key `skid` names. The two must be the same header whenever
+both are present and differ. -/
+
+/-- the reference the decrypter resolves the sender key from: `skid` first, `apu` only when there is no `skid` (and the
+    envelope has several recipients) -/
+def authRef (skid apu : Option String) (multi : Bool) : Option String :=
+  match skid with
+  | some s => some s
+  | none => if multi then apu else none
+
+/-- the order of seeded change C02-8 -/
+def authRefApuFirst (skid apu : Option String) (multi : Bool) : Option String :=
+  match (if multi then apu else none) with
+  | some a => some a
+  | none => skid
+
+/-- what the packer reports as the sender -/
+def attributedTo (skid : Option String) : Option String := skid
+
+/-- **the key that authenticated the envelope is the key it is attributed to**, whatever the headers say, whenever the
+    envelope is attributed to anybody -/
+theorem C02_attribution_is_authentication (skid apu : Option String) (multi : Bool) (s : String)
+    (h : attributedTo skid = some s) : authRef skid apu multi = some s := by
+  unfold attributedTo at h
+  subst h
+  rfl
+
+/-- with `apu` first, an envelope wrapped with the outsider's key (`apu = mallory`) and labelled `skid = alice` is
+    authenticated as mallory's and attributed to alice -/
+theorem C02_apu_first_splits_them :
+    authRefApuFirst (some "alice") (some "mallory") true = some "mallory" ∧ attributedTo (some "alice") = some "alice" := by
+  decide
+
 end Env
